@@ -300,6 +300,26 @@ impl io::Write for DribbleW {
     }
 }
 
+/// A sink with room for `room` bytes; writing beyond it fails (a full disk, a too-short buffer).
+struct FullW {
+    buf: Vec<u8>,
+    room: usize,
+}
+
+impl io::Write for FullW {
+    fn write(&mut self, b: &[u8]) -> io::Result<usize> {
+        let n = b.len().min(self.room - self.buf.len());
+        if n == 0 && !b.is_empty() {
+            return Err(io::Error::new(io::ErrorKind::Other, "no space left"));
+        }
+        self.buf.extend_from_slice(&b[..n]);
+        Ok(n)
+    }
+    fn flush(&mut self) -> io::Result<()> {
+        Ok(())
+    }
+}
+
 impl Runner {
     /// Decode one record; on success also re-encode it and compare with the bytes consumed.
     fn do_dec(&mut self, bs: &[u8], k: usize) {
@@ -1296,6 +1316,32 @@ impl Runner {
                     r
                 ));
             }
+            ["openalt"] => {
+                // another spelling of the same directory (`<dir>/.`): the lock is the directory's, not the string's
+                if self.store.is_some() || self.dump.is_some() {
+                    let mut c = self.cfg.clone();
+                    c.dir = format!("{}/.", self.dir);
+                    let before = gate::thread_events();
+                    match catch_unwind(AssertUnwindSafe(|| RaftLog::<VT>::open(Arc::new(c)))) {
+                        Ok(Ok(second)) => {
+                            // a second owner: keep nothing of it
+                            gate::set_mode(Mode::Free);
+                            drop(second);
+                            gate::set_mode(Mode::Gated);
+                            self.flush_events();
+                            self.emit("open ok");
+                        }
+                        Ok(Err(e)) => {
+                            self.flush_events();
+                            let touched = gate::thread_events() != before;
+                            self.emit(&format!("open err {}{}", err_kind(&e), if touched { " touched-files" } else { "" }));
+                        }
+                        Err(_) => self.emit("open panic"),
+                    }
+                } else {
+                    self.emit("open unowned");
+                }
+            }
             ["forkhold"] => {
                 // a child created by fork() inherits every open descriptor of this process (among
                 // them the one of the LOCK file) and keeps them until `forkrelease`
@@ -1337,6 +1383,20 @@ impl Runner {
                 self.dump = None;
                 self.emit("dumpdrop");
             }
+            ["encf", room, rec @ ..] => match (room.parse::<usize>(), parse_record(rec)) {
+                // encode into a sink that has room for `room` bytes only: an encoder that reports
+                // success must have delivered every byte it reports
+                (Ok(room), Some(r)) => {
+                    let mut w = FullW { buf: vec![], room };
+                    match catch_unwind(AssertUnwindSafe(|| r.encode(&mut w))) {
+                        Ok(Ok(n)) if n == w.buf.len() => self.emit(&format!("enc {}", hex(&w.buf))),
+                        Ok(Ok(n)) => self.emit(&format!("enc size-mismatch {} {}", n, w.buf.len())),
+                        Ok(Err(_)) => self.emit("enc err"),
+                        Err(_) => self.emit("enc panic"),
+                    }
+                }
+                _ => self.emit("bad-op"),
+            },
             ["encw", k, rec @ ..] => match (k.parse::<usize>(), parse_record(rec)) {
                 // encode into a sink that takes at most k bytes per write call
                 (Ok(k), Some(r)) if k > 0 => {
